@@ -140,31 +140,6 @@ fn c19_pool_push_flush_pop() {
     assert!(pool.pop().is_none() && pool.len() == 0, "C19.pool.empty_after_popping_everything");
 }
 
-/// Quick-tier part of the overflow step (the full version below is thorough-tier only): after the 257th push the reported
-/// length counts every block once, the handed-over queue is poppable without a flush and the count follows the pop.
-#[kani::proof]
-#[kani::unwind(259)]
-#[kani::stub(mmtk::scheduler::worker::current_worker_ordinal, stub_ordinal)]
-#[kani::stub(core::hint::spin_loop, no_spin)]
-fn c19_pool_overflow_len() {
-    const CAP: usize = 256;
-    let q = Queue::<Block>::new();
-    let mut i = 0;
-    while i < CAP {
-        let r = unsafe { q.push_relaxed(nth_block(i)) };
-        assert!(r.is_ok(), "C19.queue.push_succeeds_below_capacity");
-        i += 1;
-    }
-    let pool = mmtk::verif_hooks::block_pool::pool_with_local_queue(q);
-    unsafe { ORDINAL = 0 };
-    let extra = nth_block(CAP + 1);
-    pool.push(extra);
-    assert!(pool.len() == CAP + 1, "C19.pool.len_after_overflow_counts_each_block_once");
-    let p = pool.pop();
-    assert!(p.is_some() && p != Some(extra), "C19.pool.overflowed_queue_is_poppable");
-    assert!(pool.len() == CAP, "C19.pool.len_decreases_with_each_pop");
-}
-
 /// Queue-capacity overflow inside `BlockPool::push`: starting from a pool whose worker-local queue is full (256 blocks
 /// pushed through the real `push_relaxed`, assembled by the `pool_with_local_queue` hook), the 257th push hands the full
 /// queue to the global list without losing, duplicating or double-counting a block.
